@@ -653,11 +653,22 @@ def field_of(v, name):
 MIN_FNS = ('core::cmp::Ord::min', 'core::cmp::min')
 
 
-def bounded_by(path, v, bound):
+def bounded_by(path, v, bound, follow=None, depth=0):
     """The value is provably <= bound on this path: a constant, a min(.., k) with k <= bound in either spelling
-    (method or free function), or a value the path has compared against a constant <= bound."""
+    (method or free function), a value the path has compared against a constant <= bound, or - with `follow(name) ->
+    paths` - the result of a crate function all of whose returning paths return such a value."""
     calls = {c['id']: c for c in path.calls()}
     w = peel(v)
+    if follow is not None and depth < 2 and w[0] == 'call' and w[1] in calls and calls[w[1]]['res']:
+        ps = None
+        try:
+            ps = follow(calls[w[1]]['res'])
+        except Exception:
+            ps = None
+        if ps:
+            rets = [p for p in ps if p.end == 'return']
+            if rets and all(bounded_by(p, p.ret, bound, follow, depth + 1) for p in rets):
+                return True
     if w[0] == 'const' and w[2] is not None:
         return w[2] <= bound
     if w[0] == 'call' and w[1] in calls and calls[w[1]]['res'] in MIN_FNS:
@@ -751,3 +762,67 @@ def takes_of(path, place):
                 (is_variant(e['value'], 'Option', 'None') or (e['value'][0] == 'agg' and e['value'][3] == 'None')):
             out.append((e, e['old']))
     return out
+
+
+def path_bool(path, v):
+    """The boolean a value has on this path: a constant, or a value the path has branched on (`let ok = a && b; if ok
+    { .. } ok` returns the tested value itself).  None if unknown."""
+    if not isinstance(v, tuple) or not v:
+        return None
+    if v[0] == 'const' and v[1] == 'bool':
+        return bool(v[2])
+    neg = False
+    while v[0] == 'unop' and v[1] == 'Not':
+        v, neg = v[2], not neg
+    out = None
+    for c in path.conds():
+        e, t = norm_bool(c)
+        if t is not None and e == v:
+            out = t
+    return None if out is None else (out != neg)
+
+
+def conn_state_test(facts, ev, variant):
+    """What a cond established about `self.connection_state` being `variant`: True / False / None - for `==`, `!=`,
+    `matches!`, `match` alike."""
+    vs = variant_test(facts, ev, lambda v: is_self_field_load(v, 'connection_state'))
+    if vs is None:
+        return None
+    if vs == {variant}:
+        return True
+    if variant not in vs:
+        return False
+    return None
+
+
+def kind_test(facts, ev, kind, adt='payload::Message'):
+    """What a cond established about a message being of `kind`: True / False / None - `==`, `!=`, `matches!`, `match`."""
+    e0 = ev['expr']
+    if e0[0] == 'discr' and not str(e0[2]).startswith(adt):
+        return None
+    vs = variant_test(facts, ev, lambda v: True)
+    if vs is None:
+        return None
+    try:
+        names = set(facts.variant_names(adt))
+    except Exception:
+        return None
+    if not vs <= names or not vs:
+        return None
+    if vs == {kind}:
+        return True
+    if kind not in vs:
+        return False
+    return None
+
+
+def min_operands(path, v, depth=0):
+    """The values v is known not to exceed: v itself, or - when v is min(a, b) in either spelling - those of a and b."""
+    calls = {c['id']: c for c in path.calls()}
+    w = peel(v)
+    if depth < 3 and w[0] == 'call' and w[1] in calls and calls[w[1]]['res'] in MIN_FNS:
+        out = []
+        for a in calls[w[1]]['args']:
+            out += min_operands(path, a, depth + 1)
+        return out
+    return [v]
